@@ -440,6 +440,74 @@ def check_codelen_end(rep, mod):
                 ('unbounded' if d is None else d), key='R-CODELEN-END|%s' % re.sub(r'\.\d+$', '', u.callee), sample='%s: cursor <= end' % u.callee)
 
 
+def check_kraft_cover(rep):
+    """RFC 1951: an over-subscribed code set must be rejected.  set_codes / set_and_expand_lit_len_huffcode compute the Kraft total as
+    next_code[15] + count[15] with next_code[i] = (next_code[i-1] + count[i-1]) << 1: the total only counts every code length if the
+    recurrence runs over i = 2..15 and the 15-bit codes are added at the end.  Closed forms of the accesses (scalar evolution)."""
+    import scev
+    from scev import canon, padd, pmul, pvar, pconst
+    R = rep.rule('R-KRAFT-COVER', 'inflate code-set builders: the value compared with 1 << 15 before ISAL_INVALID_BLOCK is next_code[15] + count[15], and next_code[2..15] are produced by a loop of 14 iterations that stores '
+                 '(next_code[i-1] + count[i-1]) << 1 at index i: the codes of every length 1..15 enter the over-subscription test', floor=2, unit='builders')
+    A = scev.analysis('default')
+    for fn in ('set_codes', 'set_and_expand_lit_len_huffcode'):
+        F = scev.Forms(A, fn, [('smax', '0', '%shl96', 1)])
+        f = F.f
+        R.instance()
+
+        def acc(i):
+            b, ix = F.addr(i.ops[0] if i.op == 'load' else i.ops[1])
+            if b is None:
+                return None
+            d = f.defs.get(b)
+            kind = 'count' if b == '%count' else ('next_code' if d is not None and d.op == 'alloca' and 'next_code' in b else None)
+            return (kind, canon(ix)) if kind else None
+
+        def leaves(v, depth=0):
+            d = f.defs.get(v)
+            if d is None or depth > 10:
+                return []
+            if d.op == 'load':
+                return [d]
+            out = []
+            if d.op in ('add', 'shl', 'zext', 'sext', 'trunc', 'or', 'mul'):
+                for o in d.ops:
+                    if not re.match(r'^-?\d+$', o):
+                        out += leaves(o, depth + 1)
+            return out
+        problems = []
+        cmps = [i for i in f.all_insns() if i.op == 'icmp' and i.ops[1] == '32768' and i.extra['pred'] in ('ugt', 'sgt')]
+        if len(cmps) != 1:
+            raise AnalysisBroken('%s: the comparison with 1 << 15 was not found' % fn)
+        got = {acc(l) for l in leaves(cmps[0].ops[0])}
+        want = {('next_code', canon(pconst(60))), ('count', canon(pconst(30)))}
+        if got != want:
+            problems.append('the total compared with 1 << 15 is built from %s, expected next_code[15] + count[15]' % sorted((k, scev.pfmt(dict(ix))) for k, ix in got if k))
+        rec = []
+        for st in f.all_insns():
+            if st.op != 'store':
+                continue
+            a = acc(st)
+            L = F.loop_of(st.block)
+            if a and a[0] == 'next_code' and L and a[1] == canon(padd(pconst(8), pmul(pconst(4), pvar('n%' + L)))):
+                src = {acc(l) for l in leaves(st.ops[0])}
+                d = f.defs.get(irrules._strip(f, st.ops[0]))
+                shifted = d is not None and d.op == 'shl' and d.ops[1] == '1'
+                n = pvar('n%' + L)
+                if src == {('next_code', canon(padd(pconst(4), pmul(pconst(4), n)))), ('count', canon(padd(pconst(2), pmul(pconst(2), n))))} and shifted and canon(F.count(L) or {}) == canon(pconst(14)):
+                    rec.append(st)
+        if len(rec) != 1:
+            problems.append('no loop of 14 iterations storing next_code[i] = (next_code[i-1] + count[i-1]) << 1 for i = 2..15')
+        zero = [st for st in f.all_insns() if st.op == 'store' and st.ops[0] == '0' and acc(st) in (('next_code', canon({})), ('next_code', canon(pconst(4))))]
+        if len(zero) != 2:
+            problems.append('next_code[0] and next_code[1] are not both initialised to 0')
+        R.check(not problems, mod_where_c06(F, cmps[0]), '%s: %s: code sets whose excess lies in the code lengths left out are accepted although they are over-subscribed' % (fn, '; '.join(problems)),
+                key='R-KRAFT-COVER|' + fn, sample='%s: total = next_code[15] + count[15] over lengths 1..15' % fn)
+
+
+def mod_where_c06(F, i):
+    return F.mod.where(F.f, i)
+
+
 def main(tier):
     rep = Report('C06', tier, level='other')
     rep.undecided = UNDECIDED
@@ -454,6 +522,7 @@ def main(tier):
     check_asm(rep, V)
     check_array_fills(rep, mod)
     check_codelen_end(rep, mod)
+    check_kraft_cover(rep)
     import asmlin, c19
     asmlin.check(rep, 'INFLATE', 6, c19.field_offsets('struct inflate_state', ['next_in', 'avail_in', 'next_out', 'avail_out', 'total_out']), r'^decode_huffman_code_block_stateless_0\d$')
     import siblings, fieldinit
